@@ -101,6 +101,8 @@ def poly_identity(eq):
     if not z3.is_eq(eq):
         return z3.is_true(eq)
     a, b = eq.arg(0), eq.arg(1)
+    if not z3.is_arith(a):
+        return False
     try:
         d = z3.simplify(a - b, som=True)
     except z3.Z3Exception:
@@ -187,6 +189,15 @@ class SymB:
 
     def setup(self):
         return _Setup()
+
+    def raises(self, label, exc, fn):
+        """obligation: fn() raises exc (on this path)"""
+        try:
+            fn()
+        except exc:
+            self.rec.obligation(label, z3.BoolVal(True))
+            return
+        self.rec.obligation(label, z3.BoolVal(False))
 
     def snapshot(self, arr):
         return [v for v in _flat(arr)]
@@ -294,6 +305,14 @@ class ConcB:
 
     def setup(self):
         return _Setup()
+
+    def raises(self, label, exc, fn):
+        self.checked.append(label)
+        try:
+            fn()
+        except exc:
+            return
+        self.failed.append(label)
 
     def snapshot(self, arr):
         return np.array([complex(v) for v in _flat(arr)])
